@@ -48,7 +48,7 @@ def _run_chunk(chunk):
     return out
 
 
-def run_cases(func_module, func_name, cases, repo, chunk=8, seed=0, deadline=None, progress=None):
+def run_cases(func_module, func_name, cases, repo, chunk=8, seed=0, deadline=None, progress=None, stop_if=None):
     """Run func on every case; returns list of results aligned with ``cases``.
 
     ``seed`` only rotates the order in which chunks are handed out. If ``deadline``
@@ -80,9 +80,15 @@ def run_cases(func_module, func_name, cases, repo, chunk=8, seed=0, deadline=Non
             except mp.TimeoutError:
                 pool.terminate()
                 break
+            stop = False
             for idx, r in out:
                 results[idx] = r
                 done += 1
+                if stop_if is not None and stop_if(r):
+                    stop = True
+            if stop:   # (only used when validating seeded changes: the first unknown violation is enough)
+                pool.terminate()
+                break
             if progress and done % 2000 < chunk:
                 progress(done, n)
     return results
